@@ -238,3 +238,48 @@ Definition local_writes (s : script) : list path :=
   match s_local s with LExit _ ws => ws | LSpawnErr => [] end.
 Definition is_remote_content (c : option content) : bool :=
   match c with Some CRemote | Some CPartial => true | _ => false end.
+
+(* ---- get_cached_or_compile around it: a cache miss with CacheControl::Default, one declared output `obj` ---- *)
+Inductive req_class :=
+| QMiss (dt : dist_type)            (* CompileResult::CacheMiss(MissType::Normal, dt, ..): the entry is stored *)
+| QCompileFailed (dt : dist_type)   (* status not success: nothing stored *)
+| QProcErr
+| QErr (k : errkind)
+| QErrZip                           (* "failed to zip up compiler outputs": success reported but `obj` is missing *)
+| QPanic.
+
+Definition request_class (obj : path) (r : result) : req_class :=
+  match r_out r with
+  | OOk dt raw =>
+      if success raw
+      then match fs_get (r_fs r) obj with Some _ => QMiss dt | None => QErrZip end
+      else QCompileFailed dt
+  | OProcErr _ => QProcErr
+  | OErr k => QErr k
+  | OPanic => QPanic
+  end.
+
+(* the next identical request after a stored miss: a hit that restores what `obj` held *)
+Definition second_request (obj : path) (r : result) : option content :=
+  match request_class obj r with
+  | QMiss _ => fs_get (r_fs r) obj
+  | _ => None
+  end.
+
+(* ---- vocabulary of the statements in Properties/C13.v ---- *)
+(* the same outcome, accounted under another DistType *)
+Definition retag (dt : dist_type) (o : outcome) : outcome :=
+  match o with OOk _ raw => OOk dt raw | _ => o end.
+Definition retag_q (dt : dist_type) (q : req_class) : req_class :=
+  match q with QMiss _ => QMiss dt | QCompileFailed _ => QCompileFailed dt | _ => q end.
+
+(* output paths the client has pushed onto `output_paths` when the script's first fault strikes *)
+Definition attempted (s : script) : list path :=
+  match first_fault s with
+  | Some (StWrite k, _) => map fst (firstn (S k) (run_outs s))
+  | Some (StRewrite, _) => map fst (run_outs s)
+  | _ => []
+  end.
+
+(* no file holds (complete or partial) data fetched from a build server *)
+Definition no_remote (f : fs) : Prop := forall p, is_remote_content (fs_get f p) = false.
